@@ -95,7 +95,7 @@ def units(tier, seed):
             for gens in (1, 3):
                 k += 1
                 descs.append(dict(engines=list(eng), gens=gens, obj=objs[k % 5], maximize=mx, Mh=3, seed=s, kelites=1 + k % 2, pmut=(1.0, 0.5)[(k // 2) % 2], observing_gsc=bool((k // 3) % 2),
-                                  sprout={"kind": ("simple", "nbc")[(k // 4) % 2], "L": 2}))
+                                  sprout={"kind": ("simple", "nbc")[(k // 4) % 2], "L": 2}, hib=bool(k % 5 == 0)))
     us = [{"kind": "run", "descs": c} for c in chunks(descs, 30)]
     ops = []
     for op in ENGINE_OPS:
